@@ -47,6 +47,9 @@ def state_cover(max_states=20000, max_depth=14):
     return sorted(reps.values(), key=lambda t: (len(t), t))
 
 
+MODEL_MAX_LEN = 600
+
+
 class ParseTimeout(Exception):
     pass
 
@@ -87,6 +90,11 @@ def impl_parse(text, mode="auto", want_segments=True, limit_s=3.0):
     finally:
         signal.signal(signal.SIGVTALRM, old)
     return res
+
+
+def short(t, n=60):
+    """Text as shown in a report line (the replay case always holds the whole text)."""
+    return repr(t) if len(t) <= n else "%r...%r (%d characters)" % (t[:n // 2], t[-n // 2:], len(t))
 
 
 def out_class(o):
@@ -130,6 +138,54 @@ def keyword_segment_texts():
     return out
 
 
+# Spellings that one of Python's numeric constructors (int, float, complex, Decimal, Fraction) accepts or nearly accepts.
+# A bracketed element reference holds "an integer"; whatever conversion the parser applies to that text, the outcome
+# must be an INDEX segment or a YAML Path error for each of these.
+NUMERIC_SPELLINGS = [
+    "0", "7", "-7", "+7", "007", "-0", "1_0", "1__0", "_1", "1_", "1 0", "12345678901234567890", "9" * 400, "-" + "9" * 400,
+    "0x1f", "0X1F", "0b101", "0o17", "0x", "1f", "4F", "1L", "1l",
+    "1.0", "2.", ".5", "-1.0", "+3.0", "1.5", "-0.0", "1_0.0", "1.0_0", "00.0", "1..0", "1.0.0",
+    "1e3", "1E3", "1e+3", "1e-3", "1e0", "-1e3", "1e", "e3", "1e999", "-1e999", "1E+999", "1e-999", "9" * 400 + ".0", "1e308", "1e309",
+    "inf", "-inf", "+inf", "INF", "+INF", "Inf", "iNf", "infinity", "Infinity", "-Infinity", "INFINITY", "infinit", "in",
+    "nan", "NaN", "-nan", "+NAN", "nan1", "snan", "sNaN",
+    "1j", "1J", "1+2j", "infj", "nanj", "(1)", "1/2", "3/1", "1/0", "0/0",
+    "True", "False", "None", "true", "null", "~",
+    "\u0661\u0662", "\u0663.\u0660", "\uff11", "\u00b2", "\u2460", "\u221e", "\u0661e\u0669\u0669\u0669", "\u2212 1", "\u22121",
+]
+
+
+def numeric_index_texts():
+    """Element references (and slice bounds) spelt in every way a numeric conversion could read, plain and blank-padded,
+    alone, after and between other segments, dot and forward-slash notation."""
+    out = []
+    for n in NUMERIC_SPELLINGS:
+        for pad in ("%s", " %s ", "\t%s", "%s "):
+            x = pad % n
+            out += ["[%s]" % x, "abc[%s]" % x, "/abc[%s]/def" % x, "abc.def[%s][0]" % x, "abc[0][%s].d" % x,
+                    "abc[%s:1]" % x, "abc[1:%s]" % x, "/abc[%s:%s]" % (x, x), "(abc[%s])" % x, "abc[!%s]" % x]
+    return out
+
+
+def deep_texts(rng, depths=(30, 120, 480, 700, 1100, 1600)):
+    """Texts whose size is in the NESTING or REPETITION rather than in the variety of characters: each demarcation pair
+    nested d levels deep (balanced, one closer short, one closer too many, malformed innermost text), the same inside a
+    search term / keyword parameter / between ordinary segments, and d-fold repetitions of every significant character,
+    keyword and short segment.  d runs past the interpreter's default recursion limit (1000 frames) and past half of it."""
+    out = []
+    inner = ["abc", "abc.def", "", "abc[", "a[1]", "&x", "*", "a b", "/a/b"]
+    for d in depths:
+        dd = [d, d + rng.randint(1, 40)]
+        for n in dd:
+            for (o, c) in (("(", ")"), ("[", "]"), ("((", "))"), ("([", "])"), ("(a", ")"), ("(a.", ")"), ("(", ")+(b)"), ("(", ")[0]")):
+                for x in (rng.sample(inner, 3) if n == d else [rng.choice(inner)]):
+                    bal = o * n + x + c * n
+                    out += [bal, "/top" + o * n + x + c * n + "[0]", "top." + bal + ".x", o * n + x + c * (n - 1), o * n + x + c * (n + 1),
+                            o * (n - 1) + x + c * n, "a[b=" + bal + "]", "a[has_child(" + bal + ")]", "(" + bal + ")-(" + bal + ")"]
+        for a in ALPHABET + WORDS[:8] + ["a.", "/a", "[0]", "[a=b]", "(a)", "(a)+", "[&a]", "\\.", "''", '""', "**.", "a*", "[name()]", "\\\\"]:
+            out += [a * d, "x" + a * d, a * d + "x", "(" + a * d + ")", "[" + a * d + "]"]
+    return out
+
+
 def exhaustive_texts(maxlen, prefix=""):
     for n in range(0, maxlen + 1 - len(prefix)):
         for tup in itertools.product(ALPHABET, repeat=n):
@@ -152,8 +208,10 @@ def compare_chunk(args):
     `what` selects the comparison: 'class' (C14) or 'segments' (C08)."""
     texts, what = args
     drv = core.Driver()
-    reqs = [{"op": "parse", "t": t, "sep": m} for (t, m) in texts]
-    model = drv.ask(reqs)
+    # the model walks long nested texts in quadratic time: texts above MODEL_MAX_LEN get the direct check only
+    small = [(t, m) for (t, m) in texts if len(t) <= MODEL_MAX_LEN]
+    answers = dict(zip(small, drv.ask([{"op": "parse", "t": t, "sep": m} for (t, m) in small])))
+    model = [answers.get(tm, {"esc": {"skipped": 1}, "unesc": {"skipped": 1}}) for tm in texts]
     stats = {"n": 0, "ok": 0, "ypath": 0, "crash": 0, "timeout": 0, "out_of_model": 0, "nontrivial": 0}
     viol, disag = [], []
     samples = []
@@ -173,17 +231,17 @@ def compare_chunk(args):
             ic = out_class(io)
             if ic in ("crash", "timeout"):
                 sig = ("crash:%s@%s" % (io.get("crash"), io.get("site"))) if ic == "crash" else "timeout"
-                viol.append((sig, "parsing %r (%s, separator %s) raised %s" % (t, which, m, io.get("crash", "timeout")),
+                viol.append((sig, "parsing %s (%s, separator %s) raised %s" % (short(t), which, m, io.get("crash", "timeout")),
                              {"text": t, "sep": m, "which": which, "impl": io, "model": mo_}))
                 continue
             if m != "auto" and which == "unesc":
                 continue
-            if not in_model_text(t):
+            if not in_model_text(t) or "skipped" in mo_:
                 stats["out_of_model"] += 1
                 continue
             mc = out_class(mo_)
             if mc != ic:
-                disag.append(("class:%s-vs-%s" % (ic, mc), "outcome class of %r (%s, %s): impl %s, model %s" % (t, which, m, ic, mc),
+                disag.append(("class:%s-vs-%s" % (ic, mc), "outcome class of %s (%s, %s): impl %s, model %s" % (short(t), which, m, ic, mc),
                               {"text": t, "sep": m, "which": which, "impl": io, "model": mo_}))
             elif what == "segments" and ic == "ok" and io["ok"] != mo_["ok"]:
                 disag.append(("segments", "segments of %r (%s, %s) differ" % (t, which, m),
